@@ -10,7 +10,7 @@ import common as C
 
 META = dict(
     rule='(1) random cross-section tables (2..4 temperatures, 2..5 pressures, 3..8 wavenumbers) written as pickle '
-         '(bar), HDF5 (bar, Pa, kPa, mbar as the declared unit) and Exo-Transmit text (blocks in random order), under '
+         '(bar), HDF5 (bar, Pa, kPa, mbar, atm, torr, dbar as the declared unit) and Exo-Transmit text (blocks in random order), under '
          'file names with isotopologue prefixes and resolution suffixes; (2) k-tables as pickle and HDF5; (3) CIA '
          'tables as pickle and as HITRAN text with one or two wavenumber ranges covering different temperatures; (4) '
          'random strings through sanitize_molecule_string; (5) histories of 4..14 cache operations (get, set '
@@ -36,7 +36,7 @@ META = dict(
 )
 
 HEADER = C.HEADER_Q + 'From TV Require Import Model_C14 Exec_C14.\nOpen Scope string_scope.\n'
-UNITS = {'bar': 1e5, 'Pa': 1.0, 'kPa': 1000.0, 'mbar': 100.0}
+UNITS = {'bar': 1e5, 'Pa': 1.0, 'kPa': 1000.0, 'mbar': 100.0, 'atm': 101325.0, 'torr': 101325.0 / 760.0, 'dbar': 1e4}
 
 
 def coq_str(s):
